@@ -440,7 +440,9 @@ def main(argv=None):
                         # the coding object reads its own encoding back with the values which were encoded
                         d_, e_, _w = cc.guarded(lambda: coll[c["name"]].decode(bytes(pdu)))
                         ck.count(("own", json.dumps(cc.to_json(L)), c["name"], bytes(pdu)))
-                        if e_ is not None or any(d_.get(k_) != x_ for k_, x_ in v.items()):
+                        # (a value the generator passes for a RESERVED parameter is ignored by design: it is not read back)
+                        rsv_ = {p_["name"] for p_ in c["params"] if p_["kind"]["k"] == "reserved"}
+                        if e_ is not None or any(d_.get(k_) != x_ for k_, x_ in v.items() if k_ not in rsv_):
                             ck.violation(f"the encoding {bytes(pdu).hex()} of {c['name']} with {v!r} is read back by the same object as "
                                          f"{d_ if e_ is None else type(e_).__name__ + ': ' + str(e_)}",
                                          {"layer": cc.to_json(L), "msg": cc.to_json(bytes(pdu)), "rq": None,
